@@ -42,8 +42,8 @@ pub struct ExpErr {
 pub enum Label {
     /// copied from file #i
     File(usize),
-    /// produced by expanding a macro whose definition has this origin
-    Macro(DefOrigin),
+    /// produced by expanding a macro whose definition has this origin and this definition id
+    Macro(DefOrigin, usize),
     /// `__FILE__ / `__LINE__
     Synth,
 }
@@ -79,6 +79,8 @@ pub struct Model<'a> {
     pub flags: Flags,
     pub out: String,
     pub chunks: Vec<Chunk>,
+    /// (position in `out`, label) of every top-level macro usage
+    pub usage_marks: Vec<(usize, Label)>,
     pub table: Table,
     /// statistics for non-triviality rules
     pub expansions: usize,
@@ -121,6 +123,7 @@ impl<'a> Model<'a> {
             flags,
             out: String::new(),
             chunks: Vec::new(),
+            usage_marks: Vec::new(),
             table: initial,
             expansions: 0,
             nested_expansions: 0,
@@ -429,23 +432,26 @@ impl<'a> Model<'a> {
                 self.emit(ws_after, Label::File(file));
             }
             Item::Use(u, ws) => {
-                let origin = match self.table.get(&u.name) {
-                    Some(Some(d)) => d.origin.clone(),
-                    _ => DefOrigin::Caller,
+                let (origin, def_id) = match self.table.get(&u.name) {
+                    Some(Some(d)) => (d.origin.clone(), d.def.id),
+                    _ => (DefOrigin::Caller, 0),
                 };
                 let s = self.expand_usage(u, 0).map_err(wrap)?;
-                self.emit(&s, Label::Macro(origin));
+                // remembered even when the expansion is empty: the implementation's expansion may still hold white space
+                self.usage_marks.push((self.out.len(), Label::Macro(origin.clone(), def_id)));
+                self.emit(&s, Label::Macro(origin, def_id));
                 self.emit(ws, Label::File(file));
             }
             Item::FileMacro(ws) => {
                 let p = self.opened_as(file);
                 self.emit(&format!("\"{}\"", p), Label::Synth);
-                self.emit(ws, Label::Synth);
+                // the white space after the directive is copied from the file
+                self.emit(ws, Label::File(file));
             }
             Item::LineMacro { id, ws_after } => {
                 let l = self.lines.get(id).copied().unwrap_or(0);
                 self.emit(&format!("{}", l), Label::Synth);
-                self.emit(ws_after, Label::Synth);
+                self.emit(ws_after, Label::File(file));
             }
         }
         Ok(())
